@@ -166,10 +166,9 @@ class Budget:
         return facts
 
     def _fact_from_cond(self, c, terms):
-        truth = q.cond_truth(c)
+        e, truth = q.norm_bool(c)
         if truth is None:
             return None
-        e = c['expr']
 
         def term(x):
             while x[0] == 'cast' and x[1] in ('IntToInt', 'Into'):
@@ -203,6 +202,9 @@ class Budget:
             return (k + 1, atoms), t0
         if (op == 'Ge' and truth) or (op == 'Lt' and not truth) or (op == 'Eq' and truth):
             return (k, atoms), t0
+        # an unsigned size that is not zero is at least one
+        if ((op == 'Ne' and truth) or (op == 'Eq' and not truth)) and k == 0 and not atoms:
+            return (1, []), t0
         return None
 
     def covers(self, idx, need_const=0, need_atoms=()):
